@@ -31,9 +31,11 @@ RULE = ('Operation sequences over the node harness: extend(k blocks), fork(depth
         'replay model of the daemon\'s best chain. Non-trivial = a reorg of depth >= 2 whose old '
         'and new branches both contain spends. Classes: depth == limit, forced, deferred '
         '(mid-batch) fork, two reorgs without an intervening settle, reorg right after a '
-        'history-only flush, restart between reorgs.')
+        'history-only flush, restart between reorgs, undone tx numbers straddling a byte boundary '
+        '(a stratum pads the first block so that the chain\'s tx count reaches 256 / 512 / 65536 '
+        'inside the blocks the operations undo).')
 ASSUMPTIONS = ['LevelDB batch atomicity', 'FakeDaemon models bitcoind; orphaned blocks stay '
-               'fetchable by hash', 'tx numbers < 2^16']
+               'fetchable by hash', 'tx numbers < 2^17']
 BUDGET_S = {'quick': 130, 'thorough': 3000}
 
 
@@ -54,21 +56,44 @@ OP = st.one_of(
     st.tuples(st.just('settle')),
 ).map(list)
 
-CASE = st.builds(
-    lambda a, p, r, init, ops, lat: {'activation': a, 'prefetch': p, 'reorg_limit': r, 'init': init,
-                                     'ops': ops, 'lat': lat},
-    st.integers(0, 9), st.integers(1, 8), st.sampled_from([1, 2, 3, 4, 6]),
-    st.lists(scenario.block_desc(max_txs=4), min_size=6, max_size=14),
-    st.lists(OP, min_size=1, max_size=12),
-    st.lists(st.integers(0, 2), max_size=40))
+# "bulk" stratum: the first block carries enough cheap extra transactions that the chain's
+# transaction count reaches a byte boundary of the packed tx number (256, 512, 65536) right at the
+# end of the initial chain + offset, i.e. inside the blocks the operations extend, undo and replace
+BOUNDARIES = [256, 256, 512, 65536]
+
+
+def case_strategy(thorough=False):
+    bulk = st.none() | st.tuples(st.integers(0, 3 if thorough else 2), st.integers(-6, 12)).map(list)
+    return st.builds(
+        lambda a, p, r, init, ops, lat, bulk: {'activation': a, 'prefetch': p, 'reorg_limit': r,
+                                               'init': init, 'ops': ops, 'lat': lat, 'bulk': bulk},
+        st.integers(0, 9), st.integers(1, 8), st.sampled_from([1, 2, 3, 4, 6]),
+        st.lists(scenario.block_desc(max_txs=4), min_size=6, max_size=14),
+        st.lists(OP, min_size=1, max_size=12),
+        st.lists(st.integers(0, 2), max_size=40), bulk)
+
+
+CASE = case_strategy()
+
+
+def initial_world(case):
+    world = W.World(activation=case['activation'])
+    world.extend(case['init'])
+    bulk = case.get('bulk')
+    if bulk:
+        n0 = sum(len(b.txs) for b in world.chain())
+        pad = BOUNDARIES[bulk[0]] - n0 - bulk[1]
+        if pad > 0:
+            world = W.World(activation=case['activation'])
+            world.extend([dict(case['init'][0], pad=pad)] + list(case['init'][1:]))
+    return world
 
 
 class Machine:
     def __init__(self, scratch, case):
         self.case = case
         self.scratch = scratch
-        self.world = W.World(activation=case['activation'])
-        self.world.extend(case['init'])
+        self.world = initial_world(case)
         self.coin = make_coin(case['activation'], case['prefetch'])
         self.limit = case['reorg_limit']
         self.chooser = Chooser(case.get('lat', ()))
@@ -80,6 +105,7 @@ class Machine:
         self.deferred = []
         self.info = {'classes': set(), 'settles': 0, 'reorgs_since_settle': 0}
         self.pending_classes = set()
+        self.tx_count0 = sum(len(b.txs) for b in self.world.chain())
 
     # ---- helpers ------------------------------------------------------------------------------
     async def new_node(self):
@@ -141,6 +167,13 @@ class Machine:
                 cl.add('deep_reorg_with_spends_both_sides')
         if d == self.limit:
             cl.add('depth_eq_limit')
+        # does an undone block's tx-number range contain a multiple of 256 (a byte boundary of the
+        # packed tx numbers in history rows)?
+        first = sum(len(b.txs) for b in old_branch[0].parent and self.world.chain(old_branch[0].parent)
+                    or [])
+        last = first + sum(len(b.txs) for b in old_branch)
+        if first // 256 != (last - 1) // 256:
+            cl.add('undone_tx_numbers_straddle_byte_boundary')
         if deferred:
             cl.add('deferred_fork_mid_batch')
         if self.info['reorgs_since_settle'] >= 2:
@@ -252,7 +285,7 @@ def body(ctx):
 
 
 def run(ctx):
-    hyp_run(ctx, 'c03.machine', CASE, body(ctx), ctx.pick(200, 4000))
+    hyp_run(ctx, 'c03.machine', case_strategy(ctx.tier == 'thorough'), body(ctx), ctx.pick(200, 4000))
 
 
 def replay(ctx, check, case):
